@@ -177,11 +177,11 @@ func shValidateText(arm, v, elem string) (string, error) {
 		"string.pattern_id62": "string:{pattern:\"^[0-9A-Za-z]{22}$\"}",
 		"string.uuid":         "string:{uuid:true}", "string.email": "string:{email:true}", "string.ip": "string:{ip:true}",
 		"string.uri": "string:{uri:true}", "string.hostname": "string:{hostname:true}", "string.in": "string:{in:\"a\"}",
-		"string.empty": "string:{}",
+		"string.empty":  "string:{}",
 		"bytes.min_len": "bytes:{min_len:1}", "bytes.const": "bytes:{const:\"x\"}", "bytes.empty": "bytes:{}",
 		"enum.defined_only": "enum:{defined_only:true}", "enum.in_ok": "enum:{in:1}", "enum.in_missing": "enum:{in:77}",
 		"enum.not_in_zero": "enum:{not_in:0}", "enum.not_in_missing": "enum:{not_in:77}", "enum.const": "enum:{const:1}",
-		"enum.empty":        "enum:{}",
+		"enum.empty":         "enum:{}",
 		"repeated.min_items": "repeated:{min_items:1}", "repeated.unique": "repeated:{unique:true max_items:3}",
 		"repeated.items_string": "repeated:{items:{string:{min_len:1}}}", "repeated.items_int32": "repeated:{items:{int32:{gt:1}}}",
 		"repeated.items_bool": "repeated:{items:{bool:{const:true}}}", "repeated.items_match": "repeated:{items:{" + matching() + "}}",
